@@ -102,6 +102,39 @@ func c07Q1(r *Run, rep *core.Report, mm *core.MapModel) {
 			}
 		}
 	})
+	// ... or in a helper that only walks the chain, called with the lock already held
+	type plainHelper struct {
+		g    *ssa.Function
+		site ssa.Instruction
+	}
+	var plain []plainHelper
+	core.Instrs(f, func(in ssa.Instruction) {
+		if c, ok := in.(ssa.CallInstruction); ok {
+			if cal := core.Callee(c); cal != nil && cal.Pkg == r.P.Xsync && cal.Blocks != nil && !r.M.AcquiresBucketLock(cal) {
+				has := false
+				core.Instrs(cal, func(in2 ssa.Instruction) {
+					if c2, ok := in2.(ssa.CallInstruction); ok && core.IsBuiltinCall(c2) == "append" {
+						has = true
+					}
+				})
+				if has {
+					plain = append(plain, plainHelper{cal, in})
+				}
+			}
+		}
+	})
+	for _, ph := range plain {
+		core.Instrs(ph.g, func(in ssa.Instruction) {
+			c, ok := in.(ssa.CallInstruction)
+			if !ok || core.IsBuiltinCall(c) != "append" {
+				return
+			}
+			nAppend++
+			must, _, _ := lf.HeldAt(ph.site)
+			rep.Check(must, "C07.Q1", fn(ph.g)+" collects under the lock", r.P.InstrPos(ph.site), "the chain-walking helper is called while the bucket lock is held", "entries are collected by a helper called without the bucket lock: a concurrent writer can change the chain mid-copy, so a key can be visited with another key's value or twice")
+			c07Q2(r, rep, mm, ph.g, c)
+		})
+	}
 	for _, g := range append([]*ssa.Function{f}, helpers...) {
 		lg := lockFactsCached(r, g, core.Spec{})
 		core.Instrs(g, func(in ssa.Instruction) {
